@@ -23,7 +23,8 @@ theorem isEmpty_iff_export_nil {c : Cfg} {e : Encoder} :
 
 /-- `EncoderGuard::new` then `drop`: the view is what `into_compressed` would return now and
     the encoder is exactly as before -/
-theorem getCompressed_eq {c : Cfg} (hc : RValid c) {e : Encoder} (hI : Inv c e) :
+theorem getCompressed_eq {c : Cfg} (hc : RValid c) {e : Encoder} (hI : Inv c e)
+    (hf : Fits c e 0) :
     getCompressed c e = .ok (e.bulk ++ sealP c e, e) := by
   unfold getCompressed guardNew
   by_cases hem : isEmpty c e = true
@@ -37,10 +38,11 @@ theorem getCompressed_eq {c : Cfg} (hc : RValid c) {e : Encoder} (hI : Inv c e) 
   · simp only [hem, Bool.false_eq_true, if_false]
     rw [sealEnc_eq hc hI]
     simp only []
-    rw [unseal_seal hc hI]
+    rw [unseal_seal hc hI hf]
 
 /-- `decoder()`: a decoder over the sealed words, and the encoder exactly as before -/
-theorem tempDecoder_eq {c : Cfg} (hc : RValid c) {e : Encoder} (hI : Inv c e) :
+theorem tempDecoder_eq {c : Cfg} (hc : RValid c) {e : Encoder} (hI : Inv c e)
+    (hf : Fits c e 0) :
     ∃ d, tempDecoder c e = .ok (d, e) ∧
       Decoder.fromCompressed c (e.bulk ++ sealP c e) = .ok d := by
   have hwok : WordsOK c (e.bulk ++ sealP c e) := by
@@ -56,7 +58,7 @@ theorem tempDecoder_eq {c : Cfg} (hc : RValid c) {e : Encoder} (hI : Inv c e) :
   obtain ⟨d, hd, _⟩ := fromCompressed_eq hc hwok
   refine ⟨d, ?_, hd⟩
   unfold tempDecoder
-  rw [getCompressed_eq hc hI]
+  rw [getCompressed_eq hc hI hf]
   simp only [hd]
 
 /-! ### histories with inspections -/
@@ -86,7 +88,7 @@ def runOp {Sym : Type} (c : Cfg) (e : Encoder) : Op Sym → Except EncErr Encode
   | .numWords => liftM ((numWords c e).map (fun _ => e))
   | .numBits => liftM ((numBits c e).map (fun _ => e))
   | .isEmpty => .ok e
-  | .pos => .ok e
+  | .pos => liftM (e.pos.map (fun _ => e))
   | .clone => .ok e
 
 def runOps {Sym : Type} (c : Cfg) : Encoder → List (Op Sym) → Except EncErr Encoder
@@ -103,72 +105,85 @@ def encSteps {Sym : Type} : List (Op Sym) → List (MStep Sym)
   | _ :: ops => encSteps ops
 
 /-- every inspection returns the encoder unchanged -/
+theorem pos_eq {c : Cfg} (hc : RValid c) {e : Encoder} (hf : Fits c e 0) :
+    e.pos = .ok (e.bulk.length + e.situation.held, e.lower, e.range) := by
+  have := hf.held_lt hc
+  unfold Encoder.pos
+  rw [cadd_ok (by omega)]
+
 theorem runOp_inspect {Sym : Type} {c : Cfg} (hc : RValid c) {e : Encoder} (hI : Inv c e)
+    (hf : Fits c e 0)
     (op : Op Sym) (h : ∀ x, op ≠ .enc x) : runOp c e op = .ok e := by
   cases op with
   | enc x => exact absurd rfl (h x)
-  | getCompressed => simp [runOp, getCompressed_eq hc hI, liftM, Except.map]
+  | getCompressed => simp [runOp, getCompressed_eq hc hI hf, liftM, Except.map]
   | decoder =>
-    obtain ⟨d, hd, _⟩ := tempDecoder_eq hc hI
+    obtain ⟨d, hd, _⟩ := tempDecoder_eq hc hI hf
     simp [runOp, hd, liftM, Except.map]
-  | numWords => simp [runOp, numWords_eq hc hI, liftM, Except.map]
-  | numBits => simp [runOp, numBits_eq hc hI, liftM, Except.map]
+  | numWords => simp [runOp, numWords_eq hc hI hf, liftM, Except.map]
+  | numBits => simp [runOp, numBits_eq hc hI hf, liftM, Except.map]
   | isEmpty => rfl
-  | pos => rfl
+  | pos => simp [runOp, pos_eq hc hf, liftM, Except.map]
   | clone => rfl
 
 /-- **inspect erasure**: a history with inspections inserted anywhere, any number of times,
     ends in exactly the encoder state of the history without them. -/
 theorem inspect_erasure {Sym : Type} {c : Cfg} (hc : RValid c) : ∀ (ops : List (Op Sym))
-    (e : Encoder), Inv c e → (∀ x ∈ encSteps ops, x.Valid c) →
+    (e : Encoder), Inv c e → Fits c e (encSteps ops).length → (∀ x ∈ encSteps ops, x.Valid c) →
     runOps c e ops = encodeMsg c e (encSteps ops) := by
   intro ops
   induction ops with
-  | nil => intro e _ _; rfl
+  | nil => intro e _ _ _; rfl
   | cons op ops ih =>
-    intro e hI hv
+    intro e hI hf hv
+    have hf0 : Fits c e 0 := hf.mono (Nat.zero_le _)
     cases op with
     | enc x =>
       have hx : x.Valid c := hv x (by simp [encSteps])
       obtain ⟨hp, hcp⟩ := hx.cp_ok
       have hI' : Inv (cfgAt c x.B x.P) e := hI
+      have hf' : Fits (cfgAt c x.B x.P) e ((encSteps ops).length + 1) := hf
       have henc : encode (cfgAt c x.B x.P) x.model x.sym e
           = .ok (encPure (cfgAt c x.B x.P) e x.cp.1 x.cp.2) := by
         unfold encode
         rw [hx.enc_eq]
-        exact encodeCP_eq_pure hx.1 hI' hp hcp
+        exact encodeCP_eq_pure hx.1 hI' (hf'.mono (by omega)) hp hcp
       have hI2 : Inv c (encPure (cfgAt c x.B x.P) e x.cp.1 x.cp.2) :=
         encPure_inv hx.1 hI' hp hcp
+      have hf2 : Fits c (encPure (cfgAt c x.B x.P) e x.cp.1 x.cp.2) (encSteps ops).length :=
+        encPure_fits (c := cfgAt c x.B x.P) hx.1 hI' hp hcp hf'
       simp only [runOps, runOp, encSteps, encodeMsg, henc]
-      exact ih _ hI2 (fun y hy => hv y (by simp [encSteps, hy]))
+      exact ih _ hI2 hf2 (fun y hy => hv y (by simp [encSteps, hy]))
     | getCompressed =>
-      have h := runOp_inspect (Sym := Sym) hc hI Op.getCompressed (fun x => by simp)
+      have h := runOp_inspect (Sym := Sym) hc hI hf0 Op.getCompressed (fun x => by simp)
       simp only [runOps, encSteps]
       rw [h]
-      exact ih e hI hv
+      exact ih e hI hf hv
     | decoder =>
-      have h := runOp_inspect (Sym := Sym) hc hI Op.decoder (fun x => by simp)
+      have h := runOp_inspect (Sym := Sym) hc hI hf0 Op.decoder (fun x => by simp)
       simp only [runOps, encSteps]
       rw [h]
-      exact ih e hI hv
+      exact ih e hI hf hv
     | numWords =>
-      have h := runOp_inspect (Sym := Sym) hc hI Op.numWords (fun x => by simp)
+      have h := runOp_inspect (Sym := Sym) hc hI hf0 Op.numWords (fun x => by simp)
       simp only [runOps, encSteps]
       rw [h]
-      exact ih e hI hv
+      exact ih e hI hf hv
     | numBits =>
-      have h := runOp_inspect (Sym := Sym) hc hI Op.numBits (fun x => by simp)
+      have h := runOp_inspect (Sym := Sym) hc hI hf0 Op.numBits (fun x => by simp)
       simp only [runOps, encSteps]
       rw [h]
-      exact ih e hI hv
+      exact ih e hI hf hv
     | isEmpty =>
       simp only [runOps, runOp, encSteps]
-      exact ih e hI hv
+      exact ih e hI hf hv
     | pos =>
-      simp only [runOps, runOp, encSteps]
-      exact ih e hI hv
+      have h := runOp_inspect (Sym := Sym) hc hI hf0 Op.pos (fun x => by simp)
+      simp only [runOps, encSteps]
+      rw [h]
+      exact ih e hI hf hv
     | clone =>
       simp only [runOps, runOp, encSteps]
-      exact ih e hI hv
+      exact ih e hI hf hv
 
 end CV.Range
